@@ -38,6 +38,10 @@ def edge(rng, bound):
         return 0
     if r < 0.3:
         return bound - 1
+    if r < 0.5:
+        # around every power of two below the bound (sign bits of narrower / signed encodings, byte boundaries)
+        v = (1 << rng.randrange(1, max(2, bound.bit_length()))) + rng.choice([-1, 0, 0, 1])
+        return min(max(v, 0), bound - 1)
     return rng.randrange(bound)
 
 
